@@ -16,10 +16,13 @@
                                          to a value of the wrong kind (the spurious parameter picks up an
                                          unrelated variable of the same name) and the source has a goto
                                          whose annotation differs from its label's type,
-        VIOL class=capture-under-binder  when the syntactic detector [shadowing_risk] fires on the source,
         VIOL class=call-to-main          (known finding) when some call targets `main` ([calls_main_prog]:
                                          compile_main gives main no return continuation, the call
-                                         site passes one) - checked after capture-under-binder,
+                                         site passes one),
+        VIOL class=capture-under-binder  (REPAIRED in /repo by <commitcap>, no longer a known finding: a recurrence
+                                         is a plain VIOLATION; the tag only describes it) when the syntactic
+                                         detector [shadowing_risk] fires on the source - checked after
+                                         call-to-main and mistyped-goto-unbound,
         VIOL class=semantic-mismatch     otherwise.  Tuples on which the source run
       does not end in a normal exit within the fuel (undefined arithmetic, stuck, out of fuel) are
       not compared (the property speaks about the defined behaviour). *)
@@ -77,20 +80,20 @@ Definition fun2core_tags (p : fcprog) (ncmp : nat) (has_exp : bool) : string :=
        ++ (if effect_sequenced p then " sequenced" else " unsequenced")
        ++ (if has_exp then " expected-ok" else "")
        ++ (if main_in_fragment p then " proved-fragment" else "")
-       (* inside the hypotheses of C02_fun2core_correct_fragment2 (no codata, no call of main, well-scoped,
-          capture guard): for these programs agreement of the two runs is a THEOREM about the model *)
+       (* inside the hypotheses of C02_fun2core_correct_fragment2 (fragment, kinds, no call of main, well-scoped; no
+          capture guard since fix <commitcap>): for these programs agreement of the two runs is a THEOREM about the model *)
        ++ (if prog_guard p && nodup_str (map fdname (fcpdefs p)) then " proved-fragment2"
            else (* which part of the guard fails (histogram of what keeps inputs outside the theorem) *)
                 (if forallb (fun d => frag p (fdbody d)) (fcpdefs p) then "" else " out-frag")
                 ++ (if forallb (fun d => kd p (fdbody d)) (fcpdefs p) then "" else " out-kind")
-                ++ (if forallb (fun d => ws (compile_ctx (fdctx d)) (fdbody d)) (fcpdefs p) then "" else " out-scope")
-                ++ (if forallb (fun d => nocap (fdbody d)) (fcpdefs p) then "" else " out-nocap"))
+                ++ (if forallb (fun d => ws (compile_ctx (fdctx d)) (fdbody d)) (fcpdefs p) then "" else " out-scope"))
        ++ " cmp" ++ n_to_string (N.of_nat ncmp)
        ++ " size" ++ n_to_string (N.log2 (size_fcprog p)).
 
 Fixpoint ends_with (suffix s : string) : bool :=
   String.eqb suffix s || match s with EmptyString => false | String _ r => ends_with suffix r end.
-(* the witness of the theorem fun2core_capture_refuted is the real checked form of capture1.sc *)
+(* the witness of the theorems C02_fun2core_capture_refuted_before_fix / C02_capture_witness_fixed /
+   C02_capture_witness_simulated is the real checked form of capture1.sc *)
 Definition witness_ok (name : string) (p : fcprog) : bool :=
   if ends_with "corpus/fun/capture1.sc" name then fcprog_eqb p capture_witness
   else if ends_with "corpus/fun/c02_unbound_covar.sc" name then fcprog_eqb p goto_witness
@@ -123,9 +126,9 @@ Definition fun2core_case (i r : sexp) : verdict :=
                       | inl (what, core_unbound) =>
                           if negb (effect_sequenced p) then VSkip ("unsequenced-mismatch " ++ name ++ " " ++ what)
                           else
-                          VViol ((if shadowing_risk_prog p then "class=capture-under-binder " else
-                                  if calls_main_prog p then "class=call-to-main " else
+                          VViol ((if calls_main_prog p then "class=call-to-main " else
                                   if core_unbound && goto_type_mismatch_prog p then "class=mistyped-goto-unbound " else
+                                  if shadowing_risk_prog p then "class=capture-under-binder " else
                                   "class=semantic-mismatch ")
                                  ++ name ++ " " ++ what)
                       | inr ncmp =>
